@@ -316,11 +316,30 @@ def is_tag_try_from_unwrap(site):
             l = op_local(ct["args"][0]) if ct["args"] else None
             if l is None:
                 return False
-            x = terms.strip_views(terms.simplify(terms.term_of_local(body, l, depth=12)))
-            if isinstance(x, tuple) and x and x[0] == "field" and len(x) > 3 and x[3] == "0":
-                return True                                   # pair.0 = the key
-            if isinstance(x, tuple) and x and x[0] == "free":
-                root = norm(site.body.prog.bodies.get(site.body.root, site.body).name)
-                return KEY_PARAMS.get(norm(site.body.name), KEY_PARAMS.get(root)) == x[1]
-            return False
+            return _is_key(site.body.prog, body, l)
     return False
+
+
+def _is_key(prog, body, local, depth=4):
+    """`local` holds a frame key: the `.0` of a (key, value) pair, or a parameter of a private function that is handed a key at
+    every one of its call sites (followed through the call graph), or a reviewed key parameter."""
+    from .. import terms
+    x = terms.strip_views(terms.simplify(terms.term_of_local(body, local, depth=12)))
+    if isinstance(x, tuple) and x and x[0] == "field" and len(x) > 3 and x[3] == "0":
+        return True                                   # pair.0 = the key
+    if not (isinstance(x, tuple) and x and x[0] == "free"):
+        return False
+    root = prog.bodies.get(body.root, body)
+    if KEY_PARAMS.get(norm(body.name), KEY_PARAMS.get(norm(root.name))) == x[1]:
+        return True
+    if depth <= 0 or body.id != root.id or not (1 <= x[1] <= body.mir["argc"]) or root.raw.get("pub") or root.raw.get("exported"):
+        return False
+    sites = []
+    for cid in callgraph(prog).callers.get(body.id, ()):
+        cb = prog.bodies[cid]
+        for bb, t in cb.calls():
+            f = callee(t)
+            if f is not None and (f.get("inst") or f["def"]) == body.id and len(t["args"]) >= x[1]:
+                la = op_local(t["args"][x[1] - 1])
+                sites.append(la is not None and _is_key(prog, cb, la, depth - 1))
+    return bool(sites) and all(sites)
